@@ -32,7 +32,8 @@ def showHeader (h : Header) : String :=
   let live := h.filter fun p => !p.2.isEmpty
   let sorted := live.foldr insertPair []
   if sorted.isEmpty then "-"
-  else ";".intercalate (sorted.map fun p => hexOut' p.1 ++ "=" ++ "|".intercalate (p.2.map hexOut'))
+  else ";".intercalate (sorted.map fun p => hexOut' p.1 ++ "=" ++
+    "|".intercalate (p.2.map fun v => if v == unmodelledText then "?" else hexOut' v))
 
 /-! ### wire errors -/
 
@@ -89,7 +90,8 @@ def parseGoErr (s : String) : Option (Option GoErr) :=
   else if s.startsWith "plain:" then (hexArg' (s.drop 6).toString).map fun t => some (.plain t)
   -- an uncoded error that wraps io.EOF / an I/O timeout is an uncoded error
   else if s.startsWith "plaineof:" || s.startsWith "plaintmo:" then (hexArg' (s.drop 9).toString).map fun t => some (.plain t)
-  else if s.startsWith "coded:" || s.startsWith "codedctx:" || s.startsWith "codedwrap:" || s.startsWith "codedeof:" || s.startsWith "codedjoin:" || s.startsWith "codedas:" then
+  else if s.startsWith "coded:" || s.startsWith "codedctx:" || s.startsWith "codedwrap:" || s.startsWith "codedeof:" || s.startsWith "codedjoin:" || s.startsWith "codedas:" ||
+      s.startsWith "codedunenc:" || s.startsWith "codedunrend:" then
     -- codedctx: the coded error's cause is a context error; codedwrap: the coded error is wrapped
     -- once more (`errors.As` finds it): the model's handler sees the same coded error in all cases
     match ((s.drop ((s.splitOn ":").head!.length + 1)).toString).splitOn "@" with
@@ -117,7 +119,13 @@ def serveOp (args : List String) : String :=
       let c : HConn := { proto := parseProto' proto, kind := parseKind' kind, contentType := ct, names := names,
                          respCompression := resp, pool := if comp == "1" then some rleCompressor else none, minBytes := min }
       let p : HProg := { header := hdr, trailer := trl, sends := ss, result := result }
-      showResp (serve encStatus c p)
+      -- codedunenc: one more detail, which cannot be converted to an Any; codedunrend: the last
+      -- detail of the list is an Any of a type the binary does not know
+      let ds : DetailState :=
+        match kv' args "result" with
+        | some r => if r.startsWith "codedunenc:" then .unencodable else if r.startsWith "codedunrend:" then .unrenderable else .good
+        | none => .good
+      showResp (serveD ds encStatus c p)
     | none => "bad-op"
   | _, _, _, _, _, _, _, _, _, _, _ => "bad-op"
 
